@@ -519,6 +519,56 @@ func run(c *fw.Ctx) {
 			}
 		}
 	})
+	// C2: every prefix-free key set of <= 3 (quick) / <= 4 (thorough) keys from all paths of depth <= 2
+	// over segments that are prefixes of one another / sort around the separator
+	segs := []string{"s", "s1", "s10", "s-", "é"}
+	var allKeys []string
+	for _, a := range segs {
+		allKeys = append(allKeys, a)
+		for _, b := range segs {
+			allKeys = append(allKeys, a+"."+b)
+		}
+	}
+	maxKeys := 3
+	if c.Thorough() {
+		maxKeys = 4
+	}
+	c.R.Info["key_segments"] = segs
+	c.R.Info["max_keys_per_set"] = maxKeys
+	prefixFree := func(ks []string) bool {
+		for _, a := range ks {
+			for _, b := range ks {
+				if a != b && strings.HasPrefix(b, a+".") {
+					return false
+				}
+			}
+		}
+		return true
+	}
+	var pick func(start int, cur []string)
+	pick = func(start int, cur []string) {
+		if len(cur) > 0 {
+			item++
+			if c.Mine(item) && prefixFree(cur) {
+				m := map[string]string{}
+				for i, k := range cur {
+					m[k] = fmt.Sprintf("v%d\"", i)
+				}
+				c.R.Evaluations++
+				c.Count("flat_key_sets_written", 1)
+				if f := checkWrite(m); f != nil {
+					report(f, witness{Flat: m})
+				}
+			}
+		}
+		if len(cur) == maxKeys {
+			return
+		}
+		for i := start; i < len(allKeys); i++ {
+			pick(i+1, append(append([]string{}, cur...), allKeys[i]))
+		}
+	}
+	pick(0, nil)
 	// D
 	for _, l := range layouts(c.Thorough()) {
 		l := l
@@ -594,7 +644,7 @@ var _ = bytes.Contains
 
 func init() {
 	fw.Register(&fw.Check{ID: "C20", Level: "exploration",
-		Rule: "all nested maps over keys {a,b,é} with depth<=3 and <=3 (quick) / <=4 (thorough) leaves (flatten/rebuild both ways, string variant); all JSON documents of 4 nested-object shapes whose string leaf ranges over every string of <=2 (quick) / <=3 (thorough) symbols from {a, quote, backslash, slash, newline, tab, U+0001, é} in every JSON spelling (raw and escaped), plus number/true/null/array leaves, compared with encoding/json (UseNumber); all flat maps from 8 prefix-free key sets x every value string of <=2/3 symbols from {a, quote, backslash, slash, newline, tab, 0x01, é, '<', U+2028} written compact and formatted (valid for encoding/json, same map, round trip); translation loader on 10 directory layouts (1-4 files, 1-40 keys per file) under every schedule with <= bound preemptions. distinct = inputs/schedules",
+		Rule: "all nested maps over keys {a,b,é} with depth<=3 and <=3 (quick) / <=4 (thorough) leaves (flatten/rebuild both ways, string variant); all JSON documents of 4 nested-object shapes whose string leaf ranges over every string of <=2 (quick) / <=3 (thorough) symbols from {a, quote, backslash, slash, newline, tab, U+0001, é} in every JSON spelling (raw and escaped), plus number/true/null/array leaves, compared with encoding/json (UseNumber); all flat maps from 8 prefix-free key sets x every value string of <=2/3 symbols from {a, quote, backslash, slash, newline, tab, 0x01, é, '<', U+2028} written compact and formatted (valid for encoding/json, same map, round trip); plus EVERY prefix-free set of <=3/<=4 keys from all 30 paths of depth <=2 over the segments {s, s1, s10, s-, é} (names that are prefixes of one another or sort around the separator); translation loader on 10 directory layouts (1-4 files, 1-40 keys per file) under every schedule with <= bound preemptions. distinct = inputs/schedules",
 		Run: run, Replay: replay,
 		Assumptions: []string{"encoding/json is the reference JSON decoder", "loader values are %-free (Translate is a format API)", "2-3 preemptions, MaxJob 1-2 for the loader"}})
 }
